@@ -2,6 +2,7 @@ package monitors
 
 import (
 	"context"
+	"github.com/scionproto/scion/pkg/slayers"
 	"log/slog"
 	"math/rand/v2"
 	"net"
@@ -90,6 +91,12 @@ func c05SCION(r *ev.Run, rng *rand.Rand, nScripts int) {
 					pkt.DstHost = v6Ending(cliIP)
 				case "scion: source host is the IPv4-mapped form of another host":
 					pkt.SrcHost = netip.AddrFrom16(otherIP.As16())
+				case "scion: source host is a service address with the bytes of the server's IP address":
+					t, a := slayers.AddrType(slayers.T4Svc), srvIP.As4()
+					pkt.RawSrcType, pkt.RawSrc = &t, a[:]
+				case "scion: destination host is a service address with the bytes of the client's IP address":
+					t, a := slayers.AddrType(slayers.T4Svc), cliIP.As4()
+					pkt.RawDstType, pkt.RawDst = &t, a[:]
 				case "scion: source and destination exchanged":
 					pkt.SrcIA, pkt.DstIA, pkt.SrcHost, pkt.DstHost = pkt.DstIA, pkt.SrcIA, pkt.DstHost, pkt.SrcHost
 				}
@@ -130,7 +137,9 @@ func c05SCION(r *ev.Run, rng *rand.Rand, nScripts int) {
 		}
 		for _, n := range []string{"scion: source ISD-AS differs", "scion: source host differs", "scion: destination ISD-AS differs", "scion: destination host differs", "scion: source and destination exchanged",
 			"scion: source host is an IPv6 address ending in the server's IPv4 address", "scion: destination host is an IPv6 address ending in the client's IPv4 address",
-			"scion: source host is the IPv4-mapped form of another host"} {
+			"scion: source host is the IPv4-mapped form of another host",
+			"scion: source host is a service address with the bytes of the server's IP address",
+			"scion: destination host is a service address with the bytes of the client's IP address"} {
 			keep = append(keep, c05Mut{name: n, forceBad: true})
 		}
 		c05Leg(r, name, p, keep, func(ctx context.Context) (time.Time, time.Duration, error) {
